@@ -4,6 +4,7 @@
   Helper lemmas for the `src_*` theorems of `ALV.Props.C17`.  Core Lean only.
 -/
 import ALV.Gen.C17Src
+import ALV.Model.C17Next
 namespace ALV.C17
 open ALV.Gen.C17
 
@@ -68,5 +69,255 @@ theorem ctlGo_is_ctlOp (cfg : Cfg) (k : Ctl) :
     ctlOp cfg.fixed k = (if ctlGo cfg k then Op.goSet else Op.goClear) := by
   rcases cfg with ⟨w, f, fl⟩
   cases k <;> cases f <;> rfl
+
+/-- **the successor structure of `stepPlayer` is the skeleton's**: whenever player `i` makes a step
+    (source variant `fixed`, the one `src_variant_is_modelled` reads), its program counter moves
+    exactly to `nextPc skeleton …`: the yield point the control-flow interpreter of the regenerated
+    skeleton of `AudioThread.run` (`ALV.Model.C17Next`) reaches from the pending one, under the guard
+    values the player reads in that state (`halting`, `go.is_set()`, another chunk?, still
+    registered?, does the pending operation raise?). -/
+theorem player_pc_is_nextPc (cfg : Cfg) (hfix : cfg.fixed = true) (s s' : State) (i : Nat) (p : Player)
+    (hp : s.players[i]? = some p) (hs : stepPlayer cfg s i = some s') :
+    (s'.players[i]?).map (·.pc) = some (nextPc skeleton (playerGv s i p) p.pc) := by
+  have hi : i < s.players.length := by
+    rcases Nat.lt_or_ge i s.players.length with h | h
+    · exact h
+    · rw [List.getElem?_eq_none h] at hp; cases hp
+  unfold stepPlayer at hs
+  rw [hp] at hs
+  rcases p with ⟨pc, audio, cs, all, todo, written, sst, lk, go, halting, fail⟩
+  rcases cfg with ⟨w, f, fl⟩
+  simp only at hfix
+  subst hfix
+  simp only [playerGv]
+  generalize s.threads.contains i = t at hs ⊢
+  cases pc <;> simp only [] at hs
+  case new => cases hs
+  case done => cases hs
+  case write =>
+    rcases todo with _ | ⟨c, rest⟩ <;> simp only [] at hs
+    · cases fail <;> simp at hs
+      subst hs
+      simp [setP, hi]
+      cases halting <;> cases go <;> cases t <;> rfl
+    · cases hs
+      simp [setP, hi]
+      cases halting <;> cases go <;> cases fail <;> cases t <;> rfl
+  case goWait =>
+    cases go <;> simp at hs
+    subst hs
+    simp [setP, hi]
+    cases halting <;> cases fail <;> cases t <;> rcases todo with _ | ⟨c, rest⟩ <;> rfl
+  case finAcq =>
+    cases lk <;> simp at hs
+    subst hs
+    simp [setP, hi]
+    cases halting <;> cases go <;> cases fail <;> cases t <;> rcases todo with _ | ⟨c, rest⟩ <;> rfl
+  case tfAcq =>
+    cases hm : s.mlock <;> simp [hm] at hs
+    subst hs
+    simp [setP, hi]
+    cases halting <;> cases go <;> cases fail <;> cases t <;> rcases todo with _ | ⟨c, rest⟩ <;> rfl
+  all_goals
+    cases hs
+    simp [setP, hi, loopHead]
+    cases halting <;> cases go <;> cases fail <;> cases t <;> rcases todo with _ | ⟨c, rest⟩ <;> rfl
+
+/-- **`stepPlayer` is the interpretation of the regenerated `run`**: whenever player `i` makes a step
+    (source variant `fixed`), the WHOLE successor state is `stepOfSkel skeleton …`: the effect of the
+    operation the skeleton has at the pending yield point (`applyYP`), then of the local operations the
+    interpreter passes (`applyLocalP`: the `remove` of `thread_finished`, under the manager's lock), then
+    the next yield point as the new program counter. -/
+theorem player_step_is_skeleton (cfg : Cfg) (hfix : cfg.fixed = true) (s s' : State) (i : Nat) (p : Player)
+    (hp : s.players[i]? = some p) (hs : stepPlayer cfg s i = some s') :
+    s' = stepOfSkel skeleton s i p := by
+  unfold stepPlayer at hs
+  rw [hp] at hs
+  rcases p with ⟨pc, audio, cs, all, todo, written, sst, lk, go, halting, fail⟩
+  rcases cfg with ⟨w, f, fl⟩
+  simp only at hfix
+  subst hfix
+  simp only [stepOfSkel, playerGv]
+  generalize s.threads.contains i = t at hs ⊢
+  cases pc <;> simp only [] at hs
+  case new => cases hs
+  case done => cases hs
+  case write =>
+    rcases todo with _ | ⟨c, rest⟩ <;> simp only [] at hs
+    · cases fail <;> simp at hs
+      subst hs
+      cases halting <;> cases go <;> cases t <;> rfl
+    · cases hs
+      cases halting <;> cases go <;> cases fail <;> cases t <;> rfl
+  case goWait =>
+    cases go <;> simp at hs
+    subst hs
+    cases halting <;> cases fail <;> cases t <;> rcases todo with _ | ⟨c, rest⟩ <;> rfl
+  case finAcq =>
+    cases lk <;> simp at hs
+    subst hs
+    cases halting <;> cases go <;> cases fail <;> cases t <;> rcases todo with _ | ⟨c, rest⟩ <;> rfl
+  case tfAcq =>
+    cases hm : s.mlock <;> simp [hm] at hs
+    subst hs
+    cases halting <;> cases go <;> cases fail <;> cases t <;> rcases todo with _ | ⟨c, rest⟩ <;> rfl
+  all_goals
+    cases hs
+    cases halting <;> cases go <;> cases fail <;> cases t <;> rcases todo with _ | ⟨c, rest⟩ <;> rfl
+
+/-- **the successor structure of `stepMain` inside a call is the skeleton's**: at every program
+    counter that is a yield point of `play` / `close` / `pause` / `play` / `stop` (`mpcMethod`), a step
+    of the control thread goes to the yield point the control-flow interpreter reaches in the
+    REGENERATED method (with `AudioThread.__init__` / `thread.stop()` inlined) under the guard values
+    of that state — or the interpreter says the method is over, exactly at the program counters where
+    the model returns to the script (`mpcReturns`); and the call stays in its method until then. -/
+theorem main_pc_is_nextY (cfg : Cfg) (hfix : cfg.fixed = true) (s s' : State) (m : String) (y : Y)
+    (hm : mpcMethod s.mpc = some m) (hy : mpcY true s.mpc = some y) (hs : stepMain cfg s = some s') :
+    (nextY skeleton m (mainGv cfg s) y).map (·.2) = some (if mpcReturns s.mpc then none else mpcY true s'.mpc) ∧
+    (mpcReturns s.mpc = false → mpcMethod s'.mpc = some m) := by
+  rcases s with ⟨mpc, script, players, threads, mlock, hlock, finished, terminated, perr, log⟩
+  rcases cfg with ⟨w, f, fl⟩
+  simp only at hfix
+  subst hfix
+  unfold stepMain at hs
+  simp only [mainGv]
+  generalize players.any streamOpen = so at hs ⊢
+  generalize threads.isEmpty = te
+  cases mpc <;> simp only [mpcMethod, Option.some.injEq, reduceCtorEq] at hm <;> subst hm <;>
+    simp only [mpcY, Option.some.injEq] at hy <;> subst hy <;> simp only [] at hs
+  case pAcq audio cs =>
+    cases mlock <;> simp at hs
+    cases finished <;> simp at hs <;> subst hs <;> cases w <;> cases so <;> cases te <;> exact ⟨rfl, fun _ => rfl⟩
+  case kHAcq =>
+    cases hlock <;> simp at hs
+    cases finished <;> simp at hs <;> subst hs <;> cases w <;> cases so <;> cases te <;> exact ⟨rfl, fun _ => rfl⟩
+  case kMAcq =>
+    cases mlock <;> simp at hs
+    subst hs; cases finished <;> cases w <;> cases so <;> cases te <;> exact ⟨rfl, fun _ => rfl⟩
+  case kMRel found =>
+    rcases found with _ | j <;> simp only [] at hs
+    · cases so <;> simp at hs <;> subst hs <;> cases finished <;> cases w <;> cases te <;> exact ⟨rfl, fun _ => rfl⟩
+    · cases hs; cases finished <;> cases w <;> cases so <;> cases te <;> exact ⟨rfl, fun _ => rfl⟩
+  case kJoin j =>
+    split at hs
+    case isFalse => cases hs
+    cases hs; cases finished <;> cases w <;> cases so <;> cases te <;> exact ⟨rfl, fun _ => rfl⟩
+  case cAcq k j =>
+    split at hs
+    · split at hs
+      · cases hs
+      · cases hs; cases k <;> cases finished <;> cases w <;> cases so <;> cases te <;> exact ⟨rfl, fun _ => rfl⟩
+    · cases hs
+  case kSAcq j =>
+    split at hs
+    · split at hs
+      · cases hs
+      · cases hs; cases finished <;> cases w <;> cases so <;> cases te <;> exact ⟨rfl, fun _ => rfl⟩
+    · cases hs
+  case cEvt k j =>
+    split at hs
+    · cases hs; cases k <;> cases finished <;> cases w <;> cases so <;> cases te <;> exact ⟨rfl, fun _ => rfl⟩
+    · cases hs
+  case cRel k j =>
+    split at hs
+    · cases hs; cases k <;> cases finished <;> cases w <;> cases so <;> cases te <;> exact ⟨rfl, fun h => by cases h⟩
+    · cases hs
+  case pRaiseRel => cases hs; cases finished <;> cases w <;> cases so <;> cases te <;> exact ⟨rfl, fun h => by cases h⟩
+  case pRel => cases hs; cases finished <;> cases w <;> cases so <;> cases te <;> exact ⟨rfl, fun h => by cases h⟩
+  case kAssertRel => cases hs; cases finished <;> cases w <;> cases so <;> cases te <;> exact ⟨rfl, fun h => by cases h⟩
+  case kHRel r => cases hs; cases finished <;> cases w <;> cases so <;> cases te <;> exact ⟨rfl, fun h => by cases h⟩
+  case kTerm => cases hs; cases finished <;> cases w <;> cases so <;> cases te <;> exact ⟨rfl, fun _ => rfl⟩
+  all_goals
+    split at hs
+    · cases hs; cases finished <;> cases w <;> cases so <;> cases te <;> exact ⟨rfl, fun _ => rfl⟩
+    · cases hs
+
+/-- **the effects of `stepMain` inside a call are the skeleton's**: the successor state is the effect
+    of the operation at the pending yield point of the regenerated method (`applyYM`) followed by the
+    local operations the interpreter passes (`applyLocalM`) — up to the program counter
+    (`main_pc_is_nextY`) and, at the last lock release of the call, the return to the script
+    (`State.next`: the observation logged, the next call). -/
+theorem main_step_is_skeleton (cfg : Cfg) (hfix : cfg.fixed = true) (s s' : State) (m : String) (y : Y)
+    (t : Option Player)
+    (ht : t = match mainTarget s.mpc with
+              | some j => s.players[j]?
+              | none => none)
+    (hm : mpcMethod s.mpc = some m) (hy : mpcY true s.mpc = some y) (hs : stepMain cfg s = some s') :
+    ∃ eff, mainStepEff skeleton cfg s t m y = some eff ∧
+      if mpcReturns s.mpc then ∃ e, s' = eff.next e else { s' with mpc := s.mpc } = eff := by
+  rcases s with ⟨mpc, script, players, threads, mlock, hlock, finished, terminated, perr, log⟩
+  rcases cfg with ⟨w, f, fl⟩
+  simp only at hfix
+  subst hfix
+  unfold stepMain at hs
+  simp only [mainStepEff, mainGv]
+  generalize hso : players.any streamOpen = so at hs ⊢
+  generalize threads.isEmpty = te
+  cases mpc <;> simp only [mpcMethod, Option.some.injEq, reduceCtorEq] at hm <;> subst hm <;>
+    simp only [mpcY, Option.some.injEq] at hy <;> subst hy <;> simp only [mainTarget] at ht <;>
+    simp only [] at hs
+  case pAcq audio cs =>
+    subst ht
+    cases mlock <;> simp at hs
+    cases finished <;> simp at hs <;> subst hs <;> cases w <;> cases so <;> cases te <;> exact ⟨_, rfl, rfl⟩
+  case kHAcq =>
+    subst ht
+    cases hlock <;> simp at hs
+    cases finished <;> simp at hs <;> subst hs <;> cases w <;> cases so <;> cases te <;> exact ⟨_, rfl, rfl⟩
+  case kMAcq =>
+    subst ht
+    cases mlock <;> simp at hs
+    subst hs; cases finished <;> cases w <;> cases so <;> cases te <;> exact ⟨_, rfl, rfl⟩
+  case kMRel found =>
+    subst ht
+    rcases found with _ | j <;> simp only [] at hs
+    · cases so <;> simp at hs <;> subst hs <;> cases finished <;> cases w <;> cases te <;> exact ⟨_, rfl, rfl⟩
+    · cases hs; cases finished <;> cases w <;> cases so <;> cases te <;> exact ⟨_, rfl, rfl⟩
+  case kJoin j =>
+    subst ht
+    split at hs
+    case isFalse => cases hs
+    cases hs; cases finished <;> cases w <;> cases so <;> cases te <;> exact ⟨_, rfl, rfl⟩
+  case kTerm =>
+    subst ht; cases hs; cases finished <;> cases w <;> cases so <;> cases te <;> exact ⟨_, rfl, rfl⟩
+  case pRaiseRel =>
+    subst ht; cases hs; cases finished <;> cases w <;> cases so <;> cases te <;> exact ⟨_, rfl, _, rfl⟩
+  case pRel =>
+    subst ht; cases hs; cases finished <;> cases w <;> cases so <;> cases te <;> exact ⟨_, rfl, _, rfl⟩
+  case kAssertRel =>
+    subst ht; cases hs; cases finished <;> cases w <;> cases so <;> cases te <;> exact ⟨_, rfl, _, rfl⟩
+  case kHRel r =>
+    subst ht; cases hs; cases finished <;> cases w <;> cases so <;> cases te <;> exact ⟨_, rfl, _, rfl⟩
+  case cRel k j =>
+    rw [← ht] at hs
+    rcases t with _ | p <;> simp only [] at hs
+    · cases hs
+    · cases hs; cases k <;> cases finished <;> cases w <;> cases so <;> cases te <;> exact ⟨_, rfl, _, rfl⟩
+  case cAcq k j =>
+    rw [← ht] at hs
+    rcases t with _ | p <;> simp only [] at hs
+    · cases hs
+    · rcases p with ⟨pc, audio, cs, all, todo, written, sst, lk, go, halting, fail⟩
+      cases lk <;> simp at hs
+      subst hs
+      cases halting <;> cases k <;> cases finished <;> cases w <;> cases so <;> cases te <;> exact ⟨_, rfl, rfl⟩
+  case kSAcq j =>
+    rw [← ht] at hs
+    rcases t with _ | p <;> simp only [] at hs
+    · cases hs
+    · rcases p with ⟨pc, audio, cs, all, todo, written, sst, lk, go, halting, fail⟩
+      cases lk <;> simp at hs
+      subst hs
+      cases finished <;> cases w <;> cases so <;> cases te <;> exact ⟨_, rfl, rfl⟩
+  case cEvt k j =>
+    rw [← ht] at hs
+    rcases t with _ | p <;> simp only [] at hs
+    · cases hs
+    · cases hs; cases k <;> cases finished <;> cases w <;> cases so <;> cases te <;> exact ⟨_, rfl, rfl⟩
+  all_goals
+    rw [← ht] at hs
+    rcases t with _ | p <;> simp only [] at hs
+    · cases hs
+    · cases hs; cases finished <;> cases w <;> cases so <;> cases te <;> exact ⟨_, rfl, rfl⟩
 
 end ALV.C17
